@@ -451,11 +451,17 @@ class FileCache:
         :return: list of cache misses
         """
 
-        cache_misses = []
+        cache_misses: List[CacheMiss] = []
         for uri, directive in zip(uris, directives):
             # what is the hashkey/filename
             hashkey = self._cache_file_name(uri)
             filepath = self._cache_file_path(uri)
+
+            # A uri that occurs more than once in a request is fetched once;
+            # otherwise two workers would write (and post process) the same
+            # file at the same time.
+            if any(miss.filename == hashkey for miss in cache_misses):
+                continue
 
             # is the key in cache?
             valid_entry: Optional[bool] = False
@@ -572,8 +578,11 @@ class FileCache:
                 if success:
                     self._add_to_cache(cache_miss.filename, cache_miss.filepath)
                 else:
-                    index = filepaths.index(cache_miss.filepath)
-                    filepaths.pop(index)
+                    filepaths = [
+                        filepath
+                        for filepath in filepaths
+                        if filepath != cache_miss.filepath
+                    ]
 
         # Touch the files that were served from the cache so that they count
         # as recently used (last to be evicted).
